@@ -23,21 +23,26 @@ Min(a, b) == IF a < b THEN a ELSE b
 Max(a, b) == IF a > b THEN a ELSE b
 AlignUp(n, a) == a * ((n + a - 1) \div a)
 
-RECURSIVE SizeOf(_), AlignOf(_), StructEnd(_, _, _), StructAlign(_, _, _)
-AlignOf(ty) == CASE ty.k = "prim" -> Min(PrimSize(ty.t), MaxAlign)
-                 [] ty.k = "ptr" -> 8
-                 [] ty.k = "array" -> AlignOf(ty.e)
-                 [] ty.k = "struct" -> StructAlign(ty.ms, 1, 1)
-                 [] ty.k = "word" -> Min(ty.bytes, MaxAlign)
+(* The alignment of a word used as a member is not documented: it may be that of its declared size
+   (mode "declared": a word16 is 2-aligned) or that of its own members (mode "members").  Both are
+   accepted (unconstrained cell); a word's own size is its declared size in either mode. *)
+RECURSIVE SizeOfM(_, _), AlignOfM(_, _), StructEnd(_, _, _, _), StructAlign(_, _, _, _)
+AlignOfM(ty, mode) == CASE ty.k = "prim" -> Min(PrimSize(ty.t), MaxAlign)
+                        [] ty.k = "ptr" -> 8
+                        [] ty.k = "array" -> AlignOfM(ty.e, mode)
+                        [] ty.k = "struct" -> StructAlign(ty.ms, 1, 1, mode)
+                        [] ty.k = "word" -> IF mode = "declared" THEN Min(ty.bytes, MaxAlign) ELSE ty.malign
 \* offset after laying out members i.. starting at offset off
-StructEnd(ms, i, off) == IF i > Len(ms) THEN off
-                         ELSE StructEnd(ms, i + 1, AlignUp(off, AlignOf(ms[i])) + SizeOf(ms[i]))
-StructAlign(ms, i, a) == IF i > Len(ms) THEN a ELSE StructAlign(ms, i + 1, Max(a, AlignOf(ms[i])))
-SizeOf(ty) == CASE ty.k = "prim" -> PrimSize(ty.t)
-                [] ty.k = "ptr" -> 8
-                [] ty.k = "array" -> ty.n * SizeOf(ty.e)
-                [] ty.k = "struct" -> AlignUp(StructEnd(ty.ms, 1, 0), StructAlign(ty.ms, 1, 1))
-                [] ty.k = "word" -> ty.bytes
+StructEnd(ms, i, off, mode) == IF i > Len(ms) THEN off
+                               ELSE StructEnd(ms, i + 1, AlignUp(off, AlignOfM(ms[i], mode)) + SizeOfM(ms[i], mode), mode)
+StructAlign(ms, i, a, mode) == IF i > Len(ms) THEN a ELSE StructAlign(ms, i + 1, Max(a, AlignOfM(ms[i], mode)), mode)
+SizeOfM(ty, mode) == CASE ty.k = "prim" -> PrimSize(ty.t)
+                       [] ty.k = "ptr" -> 8
+                       [] ty.k = "array" -> ty.n * SizeOfM(ty.e, mode)
+                       [] ty.k = "struct" -> AlignUp(StructEnd(ty.ms, 1, 0, mode), StructAlign(ty.ms, 1, 1, mode))
+                       [] ty.k = "word" -> ty.bytes
+SizeOf(ty) == SizeOfM(ty, "declared")
+AlignOf(ty) == AlignOfM(ty, "declared")
 \* the length `|x|` of an array with n elements, however it is passed
 LenOf(n, mode) == n
 =============================================================================
